@@ -13,7 +13,7 @@ from translate_py import Z, B, S, O, L, D, T
 from vlib import coq_bool_cases
 
 HEADER = ("From Coq Require Import ZArith List Bool.\nFrom Coq Require String.\nImport String.StringSyntax.\n"
-          "From XV Require Import Base.PyLib Gen.PyBcast Gen.PyMisc Gen.PyUnique Gen.PyPackerIdx Gen.PyPureFn Gen.PyEditable Gen.PyTensorPacker Gen.PyDispatch Gen.PyDispatchEig.\n"
+          "From XV Require Import Base.PyLib Gen.PyBcast Gen.PyMisc Gen.PyUnique Gen.PyPackerIdx Gen.PyPureFn Gen.PyEditable Gen.PyTensorPacker Gen.PyDispatch Gen.PyDispatchEig Gen.PyDispatchRF.\n"
           "Open Scope Z_scope.\n")
 
 
@@ -502,6 +502,47 @@ def case_dispatch(rng, u, mod, unitname, coqname):
     return dict(args=[ins, m], call=call, term=term, rtype=O, key=(coqname, tuple(ins), m[0], m[1] if m[0] == "str" else None))
 
 
+def case_dispatch_rf(rng, u, mod, which):
+    """equilibrium() / minimize(): the statements of the source in front of _RootFinder.apply, executed by CPython with the
+    module's own method tables and default helpers"""
+    import ast as _ast
+    key = "PyDispatchRF:" + which
+    if key not in _FRAG:
+        relpath, specs = tp.UNITS["PyDispatchRF"][:2]
+        spec = [sp for sp in specs if sp["qual"] == which][0]
+        fdef = tp.Unit(relpath, specs).functions()[which]
+        texts = [_ast.unparse(x).split("\n")[0] for x in fdef.body]
+        i0, i1 = texts.index(spec["fragment"]["from"]), texts.index(spec["fragment"]["until"])
+        stmts = [x for x in fdef.body[i0:i1] if _ast.unparse(x).split("\n")[0] not in spec.get("skip", [])]
+        _FRAG[key] = compile(_ast.Module(body=stmts, type_ignores=[]), relpath, "exec")
+    r = rng.random()
+    if r < 0.3:
+        m = ("none",)
+    elif r < 0.8:
+        base = rng.choice(["anderson_acc", "broyden1", "Newton", "gd", "ADAM", "linearmixing", "zz", ""])
+        m = ("str", "".join(ch.upper() if rng.random() < 0.4 else ch for ch in base))
+    elif r < 0.9:
+        m = ("call", 5)
+    else:
+        m = ("tok", 9)
+    tbl_py = mod._EQUIL_METHODS if which == "equilibrium" else mod._RF_METHODS
+    tbl = [(k, ("call", 60 + i)) for i, k in enumerate(tbl_py)]
+    fo = g_dict(rng, 3)
+
+    def call(pool):
+        ns = dict(vars(mod))
+        ns.update(method=pool.get(m), fwd_options=from_desc(fo, D(S, O), pool), pfunc=None, new_fcn=None)
+        exec(_FRAG[key], ns)
+        return (ns["method"], ns["alg_type"]) if which == "equilibrium" else (ns["method"], ns["opt_method"])
+    if which == "equilibrium":
+        term = "equilibrium_method_prelude %s %s" % (c_val(m, O), c_val(tbl, D(S, O)))
+        rt = T(O, S)
+    else:
+        term = "minimize_method_prelude %s %s %s" % (c_val(m, O), c_val(fo, D(S, O)), c_val(tbl, D(S, O)))
+        rt = T(O, B)
+    return dict(args=[m, fo], call=call, term=term, rtype=rt, key=(which, m[0], m[1] if m[0] == "str" else None))
+
+
 FUNCTIONS = {
     "normalize_bcast_dims": ("PyBcast", "xitorch._utils.bcast", lambda r, u, m: case_bcast(r, u, m, "normalize_bcast_dims")),
     "get_bcasted_dims": ("PyBcast", "xitorch._utils.bcast", lambda r, u, m: case_bcast(r, u, m, "get_bcasted_dims")),
@@ -515,6 +556,8 @@ FUNCTIONS = {
     "editable_module": ("PyEditable", "xitorch._core.editable_module", case_editable),
     "tensorpacker": ("PyTensorPacker", "xitorch._utils.misc", case_tensorpacker),
     "solve_prelude": ("PyDispatch", "xitorch.linalg.solve", lambda r, u, m: case_dispatch(r, u, m, "PyDispatch", "solve_method_prelude")),
+    "equilibrium_prelude": ("PyDispatchRF", "xitorch.optimize.rootfinder", lambda r, u, m: case_dispatch_rf(r, u, m, "equilibrium")),
+    "minimize_prelude": ("PyDispatchRF", "xitorch.optimize.rootfinder", lambda r, u, m: case_dispatch_rf(r, u, m, "minimize")),
     "symeig_prelude": ("PyDispatchEig", "xitorch.linalg.symeig", lambda r, u, m: case_dispatch(r, u, m, "PyDispatchEig", "symeig_method_prelude")),
 }
 
